@@ -134,6 +134,8 @@ CASES = {
     "isin": lambda pd, df: df["name"].isin(["P"]),
     "str-strip": lambda pd, df: df["name"].astype(object).str.strip().str.upper(),
     "between": lambda pd, df: (df["resSeq"].between(5, 6), df["resSeq"].between(1, 9999).all()),
+    "index-ops": lambda pd, df: (pd.to_numeric(df["resSeq"].astype("category").cat.categories, errors="coerce").max(), df["chain"].cat.categories.astype(str).str.len().max(), pd.Index(df["iCode"].dropna().unique()).astype(str).str.len().max(), pd.to_numeric(pd.Index(df["x"].dropna().unique()), errors="coerce").max()),
+    "abs-round": lambda pd, df: ((-df["x"]).abs().max(), df["x"].round(0).tolist()),
     "gt-scalar": lambda pd, df: (df["resSeq"] > 9999).any(),
     "nan-gt": lambda pd, df: float("nan") > 9999,
     "concat": lambda pd, df: pd.concat([df.iloc[:2], df.iloc[4:6]]),
